@@ -88,8 +88,9 @@ type scenario struct {
 	timerArmed chan struct{}
 	armOnce    sync.Once
 
-	chainBid bool
-	free     *freeCfg
+	chainBid   bool
+	reservedAs mtypes.OrderID // the id the monitor passed to Reserve
+	free       *freeCfg
 
 	bus    pubsub.Bus
 	svc    bidengine.Service
@@ -446,7 +447,7 @@ type reservation struct {
 	g   atypes.ResourceGroup
 }
 
-func (r *reservation) OrderID() mtypes.OrderID          { return r.oid }
+func (r *reservation) OrderID() mtypes.OrderID         { return r.oid }
 func (r *reservation) Resources() atypes.ResourceGroup { return r.g }
 
 type cluster struct{ s *scenario }
@@ -455,6 +456,9 @@ func (c *cluster) Reserve(oid mtypes.OrderID, g atypes.ResourceGroup) (ctypes.Re
 	if !oid.Equals(c.s.oid) {
 		c.s.note("Reserve for a foreign order " + oid.String())
 	}
+	c.s.mu.Lock()
+	c.s.reservedAs = oid
+	c.s.mu.Unlock()
 	if a := c.s.opCall("reserve", 0); a.r != "ok" {
 		return nil, errors.New("scripted failure of the reservation")
 	}
@@ -462,7 +466,10 @@ func (c *cluster) Reserve(oid mtypes.OrderID, g atypes.ResourceGroup) (ctypes.Re
 }
 
 func (c *cluster) Unreserve(oid mtypes.OrderID) error {
-	if !oid.Equals(c.s.oid) {
+	c.s.mu.Lock()
+	as := c.s.reservedAs
+	c.s.mu.Unlock()
+	if !oid.Equals(c.s.oid) && !oid.Equals(as) { // releases neither this order's reservation nor the one it made
 		c.s.note("Unreserve for a foreign order " + oid.String())
 		return nil
 	}
